@@ -3,9 +3,9 @@
 import json, os
 ROOT = os.path.dirname(os.path.dirname(os.path.abspath(__file__)))
 ALL = ["C%02d" % i for i in range(1, 19)]
-EXEC_NOTE = "Trusts the reference model (pv/ref/model.py; calibrated by triaging every disagreement with the real compiler at ~40 seeds, NOT against the upstream chinook snapshots - DESIGN.md 9.2), pinned SQLite 3.49.1 as the executing engine for sql.sqlite/sql.generic, and the unspecified-value discipline (undetermined outcomes are skipped and counted). Other dialects are not executed."
+EXEC_NOTE = "Trusts the reference model (pv/ref/model.py; calibrated by triaging every disagreement with the real compiler at ~60 seeds and three thorough runs; the execution path is calibrated against the 27 upstream chinook result snapshots, the model itself is not - DESIGN.md 9.2), pinned SQLite 3.49.1 as the executing engine for sql.sqlite/sql.generic, and the unspecified-value discipline (undetermined outcomes are skipped and counted). Other dialects are not executed."
 CHECKS = {
- "C01": dict(technique="runtime reference-model monitor: random relational-core programs x database instances compiled by the real compiler, executed on pinned SQLite, rows compared as bags with an independent interpreter",
+ "C01": dict(technique="runtime reference-model monitor: random relational-core programs x database instances compiled by the real compiler, executed on pinned SQLite, rows compared as bags with an independent interpreter; plus the 27 upstream chinook integration queries against the result snapshots recorded upstream",
     text="Exploration: every judged execution's rows (values and multiplicities) equal the documented meaning of the pipeline; evidence lists split shapes, transform bigrams and SQL rewrites actually exercised.", note=EXEC_NOTE, design="DESIGN.md §3 C01 and §9"),
  "C02": dict(technique="runtime monitor over all operator nestings: printer (documented precedence) -> real parser tree equality, and emitted SQL value vs tree value on a NULL/negative/zero/int/float domain table",
     text="Exploration, exhaustive over the 578 (parent, child, side) operator triples and unary adjacencies, random deeper trees: held means parse trees and SQL values matched the documented operand tree on every judged row.", note=EXEC_NOTE, design="DESIGN.md §3 C02 and §9"),
